@@ -1,12 +1,46 @@
-//! C08 — stub (not built yet).
+//! C08 — Newton-type iterations converge to the nearby root on regular problems; singular
+//! systems and exhausted caps give Err, never a panic, a NaN or a silently wrong point.
+//! Sub-modules: systems (newton, secant), polys (newton_polynomial, muller_polynomial), steff.
+
 use crate::report::*;
 
+#[path = "c08/systems.rs"]
+mod systems;
+#[path = "c08/polys.rs"]
+mod polys;
+#[path = "c08/steff.rs"]
+mod steff;
+
+pub const EPS: f64 = f64::EPSILON;
+
 pub fn meta() -> CheckMeta {
-    CheckMeta { id: "C08", level: "exploration", rule: "stub".into(), assumptions: vec![], exhaustive: false, stuck_is_violation: false }
+    CheckMeta {
+        id: "C08",
+        level: "exploration",
+        rule: "cases: newton and secant on G-rootn systems F(x)=A(x-r)+eps*Q(x-r), dim 1-4, cond(A) 1..1e3, roots at/near the origin and near +-100, starts inside the root-centred Newton radius (h = |A^-1| Lip(F') |x0-r| <= 0.25 newton, <= 0.02 secant), on the root, at the origin, affine members from arbitrary starts, exactly singular inconsistent affine systems and exhausted caps (Err expected); newton_polynomial on polynomials of degree 1-8 expanded from separated roots (real and complex) started inside the rigorous Newton basin of a simple root, on the root and at exactly 0; muller_polynomial from three distinct points; steffensen on a catalogue and on parametrised families of contractions (|g'| <= 0.7 near the fixed point) with tolerances 1e-2..1e-13. A case is non-trivial when it needed >= 2 iterations, or started on the root / at the origin, or Err is the expected outcome; distinct = hash of (routine, problem, start, parameters)".into(),
+        assumptions: vec![
+            "systems: Ok(x) must satisfy |x-r| <= 4 tol max(1,|r|) + 64 eps cond(A) (1+|r|); calls of f <= n_max (newton; jac likewise), <= n_max + 2 dim + 1 (secant)".into(),
+            "newton_polynomial: |x-z| <= 4 tol + 64 eps (ptilde(|z|)/|p'(z)| + |z|); muller: |p(z)| <= 4 tol |p'(z)| + 64 eps ptilde(|z|), an Err of muller is counted, not flagged".into(),
+            "steffensen: |x-x*| <= 4 tol + 64 eps (1+|x*|), calls <= 2 n_max; fixed points computed by float bisection of x-g(x) in the harness".into(),
+            "singular systems are exactly singular integer matrices with an inconsistent right-hand side; secant uses a dyadic finite-difference width there so that its Jacobian is exactly the singular matrix".into(),
+        ],
+        exhaustive: false,
+        stuck_is_violation: true,
+    }
 }
-pub fn stages(_ctx: &Ctx) -> Vec<Stage> {
-    vec![]
+
+pub fn stages(ctx: &Ctx) -> Vec<Stage> {
+    let mut st = vec![];
+    st.extend(systems::stages(ctx));
+    st.extend(polys::stages(ctx));
+    st.extend(steff::stages(ctx));
+    st
 }
-pub fn thresholds(_ctx: &Ctx, _rep: &Report) -> Vec<Threshold> {
-    vec![Threshold { what: "check not built".into(), required: 1.0, observed: 0.0 }]
+
+pub fn thresholds(ctx: &Ctx, rep: &Report) -> Vec<Threshold> {
+    let mut t = vec![];
+    t.extend(systems::thresholds(ctx, rep));
+    t.extend(polys::thresholds(ctx, rep));
+    t.extend(steff::thresholds(ctx, rep));
+    t
 }
